@@ -29,11 +29,17 @@ Err == <<"err">>
 (* Key identity is the language's generic comparison: an integer and a    *)
 (* character with the same code are one key (hashHelper gives both the    *)
 (* same code and Compare says equal); a one-element array [x] is the key  *)
-(* x (HashSet/HashGet unwrap it).  NK is the normal form.                  *)
-RECURSIVE NK(_)
-NK(k) == CASE k[1] = "chr" -> <<"int", k[2]>>
-           [] k[1] = "arr" /\ Len(k[2]) = 1 -> NK(k[2][1])
+(* x (HashSet/HashGet unwrap it), whatever x is: [[x]] is the key [x],    *)
+(* which is the key x.  A dotted symbol (op key <<"dsym", name>>) is, if  *)
+(* the hash takes it at all, the symbol of that name (see HashTrace: the  *)
+(* insertion may be refused, because hget reads a dotted symbol as a path *)
+(* into nested records).  UW is the key as spelled (what the views may    *)
+(* show), NK the normal form that decides identity.                       *)
+RECURSIVE UW(_)
+UW(k) == CASE k[1] = "arr" /\ Len(k[2]) = 1 -> UW(k[2][1])
+           [] k[1] = "dsym" -> <<"sym", k[2]>>
            [] OTHER -> k
+NK(k) == LET u == UW(k) IN IF u[1] = "chr" THEN <<"int", u[2]>> ELSE u
 
 KeyEq(a, b) == NK(a) = NK(b)
 
@@ -68,9 +74,14 @@ Apply(c, o) ==
            [c |-> c, r |-> IF o.i >= 0 /\ o.i < Len(c)
                            THEN <<"list", <<NK(c[o.i+1][1]), c[o.i+1][2]>>>>
                            ELSE Err]
-      [] o.op \in {"range", "str", "json"} ->
-           (* observed through the harness as the ordered list of pairs *)
+      [] o.op \in {"range", "rangego", "str", "json"} ->
+           (* observed through the harness as the ordered list of pairs; range is the macro      *)
+           (* (range k v h body), rangego the infix form  for k, v := range h { body }  -- under *)
+           (* whatever name the program holds the hash (event field hv)                          *)
            [c |-> c, r |-> <<"pairs", PairsOf(c)>>]
+      [] o.op = "rangego1" ->
+           (* for k := range h { body }: the keys alone *)
+           [c |-> c, r |-> <<"keyseq", KeysOf(c)>>]
 
 (* ---- a key list kept by the program: the key list a program keeps is a value of its own.  Later     *)
 (* changes of the hash do not reach it, writing into it does not reach the hash.            *)
@@ -96,8 +107,9 @@ NormRes(o, r) ==
     CASE r[1] = "err" -> Err
       [] o.op \in {"keys", "keep", "kept"} /\ r[1] = "arr" -> <<"arr", [i \in 1..Len(r[2]) |-> NK(r[2][i])]>>
       [] o.op = "hpair" /\ r[1] = "list" /\ Len(r[2]) = 2 -> <<"list", <<NK(r[2][1]), r[2][2]>>>>
-      [] o.op \in {"range","str","json"} /\ r[1] = "pairs" ->
+      [] o.op \in {"range","rangego","str","json"} /\ r[1] = "pairs" ->
             <<"pairs", [i \in 1..Len(r[2]) |-> <<NK(r[2][i][1]), r[2][i][2]>>]>>
+      [] o.op = "rangego1" /\ r[1] = "keyseq" -> <<"keyseq", [i \in 1..Len(r[2]) |-> NK(r[2][i])]>>
       [] OTHER -> r
 
 (* ---- the state machine, for exhaustive exploration ---- *)
@@ -107,7 +119,7 @@ VARIABLES content, out
 Ops == [op : {"hset"}, k : Keys, v : Vals]
   \cup [op : {"hdel", "hget"}, k : Keys]
   \cup [op : {"hgetd"}, k : Keys, v : Vals]
-  \cup [op : {"keys", "len", "range"}]
+  \cup [op : {"keys", "len", "range"}]   \* rangego/rangego1/str/json are further views of the same content
   \cup [op : {"hpair"}, i : 0..2]
 
 Init == content = <<>> /\ out = Nil
